@@ -27,6 +27,41 @@ def mutate(doc, arch, rng):
             alt = rng.choice([b'\xcb\x7f\xf8\x00\x00\x00\x00\x00\x00', b'\xca\x7f\xc0\x00\x00', b'\xcb\x7f\xf0\x00\x00\x00\x00\x00\x00', b'\xcb\x80\x00\x00\x00\x00\x00\x00\x00', b'\xca\x00\x00\x00\x00',
                               b'\xc0', b'\xc3', b'\xc4\x01\x00', b'\x91\x01', b'\x80', b'\xd6\xff\x00\x00\x00\x00', b'\xcf\xff\xff\xff\xff\xff\xff\xff\xff', b'\xd3\x80\x00\x00\x00\x00\x00\x00\x00', b'\xa0'])
             return doc[:p] + alt + doc[p + 1 + (doc[p] & 0x1f):], 'key-kind-replace'
+    if arch in ('json', 'xml') and rng.random() < 0.08:
+        # structure-aware: replace a whole bracketed subtree (array / object / element content) by a scalar, or a scalar by a subtree
+        if arch == 'json':
+            opens = [i for i, b in enumerate(doc) if b in b'[{']
+            if opens:
+                p = rng.choice(opens)
+                close = {0x5b: 0x5d, 0x7b: 0x7d}[doc[p]]
+                depth, q, in_str = 0, p, False
+                while q < n:
+                    b = doc[q]
+                    if in_str:
+                        if b == 0x5c:
+                            q += 1
+                        elif b == 0x22:
+                            in_str = False
+                    elif b == 0x22:
+                        in_str = True
+                    elif b == doc[p]:
+                        depth += 1
+                    elif b == close:
+                        depth -= 1
+                        if depth == 0:
+                            break
+                    q += 1
+                if q < n and p > 0:
+                    return doc[:p] + rng.choice([b'7', b'"abcd"', b'null', b'true', b'1.5', b'-1']) + doc[q + 1:], 'subtree-to-scalar'
+        else:
+            import re as _re
+            m = list(_re.finditer(rb'<([A-Za-z_][^ >/]*)>', doc))
+            if m:
+                mm = rng.choice(m)
+                endtag = b'</' + mm.group(1) + b'>'
+                e = doc.find(endtag, mm.end())
+                if e > 0:
+                    return doc[:mm.end()] + rng.choice([b'7', b'abcd', b'', b'<value>1</value>', b'<x><y>2</y></x>']) + doc[e:], 'subtree-to-scalar'
     if k == 0:
         return doc[:rng.randrange(n)], 'truncate'
     if k == 1:
